@@ -1,17 +1,13 @@
 package sim
 
-func oracleC02(r *Result)      {}
-func oracleC03(r *Result)      {}
-func oracleC04(r *Result)      {}
-func oracleC05(r *Result)      {}
-func oracleC06(r *Result)      {}
-func oracleC07(r *Result)      {}
-func oracleC08(r *Result)      {}
-func oracleC09(r *Result)      {}
-func oracleC10(r *Result)      {}
-func oracleC11(r *Result)      {}
-func oracleC12(r *Result)      {}
-func oracleC13(r *Result)      {}
-func oracleC15(r *Result)      {}
-func oracleRecovery(r *Result) {}
-func (w *World) recoveryPhase() {}
+func oracleC02(r *Result) {}
+func oracleC03(r *Result) {}
+func oracleC04(r *Result) {}
+func oracleC05(r *Result) {}
+func oracleC06(r *Result) {}
+func oracleC07(r *Result) {}
+func oracleC09(r *Result) {}
+func oracleC11(r *Result) {}
+func oracleC12(r *Result) {}
+func oracleC13(r *Result) {}
+func oracleC15(r *Result) {}
